@@ -9,7 +9,10 @@ import Aiorpcx.C16.Wire
     `obj <proto> <host> <port> <auth> <chunk hex> ...`
         `next_message()` / `receive_data(chunk)` by hand: results of the successive calls.
     `det <proto> <auth> <attempt> ...`   attempt = `x` (connect fails) | `<stream hex>`
-        `_detect_proxy` verdict: `True` / `False` / `E:<Exception>` -/
+        `_detect_proxy` verdict: `True` / `False` / `E:<Exception>`
+    `con <outcome> ...`   outcome of `_connect_one` per remote address:
+        `s` (a socket) | `e:<Exception>:<repr id>` (returned exception) | `x:<Exception>` (escaped)
+        `_connect`: `connected <address index>` / `E:<Exception>` -/
 open Aiorpcx Aiorpcx.Socks Aiorpcx.Socks.Wire
 
 def parseSizes (s : String) : Option (List Nat × Nat) :=
@@ -42,6 +45,16 @@ def parseAttempt (s : String) : Option Attempt :=
   if s == "x" then some .connectFails
   else (Hex.parseBytes s).map fun b => .talks b (fun _ => 1)
 
+def parseOutcome (s : String) : Option AddrOutcome :=
+  match s.splitOn ":" with
+  | ["s"] => some (.sock [])
+  | ["e", n, r] =>
+    match parseExc n, r.toNat? with
+    | some e, some r => some (.exc e r)
+    | _, _ => none
+  | ["x", n] => (parseExc n).map .escaped
+  | _ => none
+
 def handle (line : String) : String :=
   match (line.splitOn " ").filter (· ≠ "") with
   | ["hs", p, h, port, a, stream, sizes] =>
@@ -64,6 +77,13 @@ def handle (line : String) : String :=
       | .ok false => "False"
       | .error e => "E:" ++ showExc e
     | _, _, _ => "bad-op"
+  | "con" :: outcomes =>
+    match outcomes.mapM parseOutcome with
+    | some os =>
+      match connect os with
+      | .connected i _ => "connected " ++ toString i
+      | .raised e => "E:" ++ showExc e
+    | none => "bad-op"
   | _ => "bad-op"
 
 def main : IO Unit := Hex.lineLoop handle
